@@ -48,7 +48,14 @@ pub fn step_base<T: ElemBase>(m: &mut Matrix<T>, op: &Value) -> StepOut<T> {
             "clear" => m.clear(),
             "fill" => m.fill(arg_x::<T>(op, "x")),
             "fill_diag" => m.fill_diag(arg_x::<T>(op, "x")),
-            "fill_band" => m.fill_band(geti(op, "off") as isize, arg_x::<T>(op, "x")),
+            "fill_band" => m.fill_band(match gets(op, "offx") { "min" => isize::MIN, "min1" => isize::MIN + 1, "max" => isize::MAX, "max1" => isize::MAX - 1, _ => geti(op, "off") as isize }, arg_x::<T>(op, "x")),
+            // Clone::clone_from into the live object from a matrix of another (or the same) shape
+            "clone_from" => { let b = arg_mat::<T>(op); m.clone_from(&b) }
+            // PartialEq against a matrix with the SAME row-major data but (possibly) another shape, against a clone, and against a clone with one entry changed
+            "eq_reshape" => { let (nr, nc) = (getu(op, "nr"), getu(op, "nc")); let mut o2 = Matrix::<T>::new(nr, nc, T::from_ri(0, 0)); let c = m.cols().max(1);
+                for k in 0..(nr * nc).min(m.rows() * m.cols()) { o2[(k / nc.max(1), k % nc.max(1))] = m[(k / c, k % c)]; }
+                let eq = *m == o2; let ne = *m != o2; let cl = m.clone(); let eqc = *m == cl && !(*m != cl);
+                o.ri = Some((eq as i64) + 2 * (ne as i64) + 4 * (eqc as i64)); }
             "fill_tridiag" => m.fill_tridiag(arg_x::<T>(op, "lo"), arg_x::<T>(op, "di"), arg_x::<T>(op, "up")),
             "fill_row" => m.fill_row(getu(op, "i"), arg_x::<T>(op, "x")),
             "fill_col" => m.fill_col(getu(op, "j"), arg_x::<T>(op, "x")),
@@ -385,6 +392,16 @@ fn rand_op(rng: &mut StdRng, r: usize, c: usize, cx: bool, f64ty: bool, doubling
                     o = json!({"op": "matmul_assign", "b": rand_mat_json(rng, k, c2, -1, 1)}); if cx { o["bi"] = rand_mat_json(rng, k, c2, 0, 0); } if k == c { nc = c2; } }
             }
             40 => { o = if rng.gen_bool(0.4) { json!({"op": "eye", "n": rng.gen_range(0..=8)}) } else { json!({"op": (["add_self", "sub_self", "matmul_self"][rng.gen_range(0..3)])}) }; }
+            41 if rng.gen_bool(0.5) => {
+                match rng.gen_range(0..3) {
+                    0 => { let (br, bc) = (rng.gen_range(0..=8usize), rng.gen_range(0..=8usize)); o = json!({"op": "clone_from", "b": rand_mat_json(rng, br, bc, -9, 9)}); if cx { o["bi"] = rand_mat_json(rng, br, bc, -9, 9); } nr = br; nc = bc; }
+                    1 => { let n = r * c; let shapes: Vec<(usize, usize)> = (0..=n.max(1)).flat_map(|a| (0..=n.max(1)).map(move |b| (a, b))).filter(|(a, b)| a * b == n && *a <= 64 && *b <= 64).collect();
+                           let (a, b) = shapes[rng.gen_range(0..shapes.len())]; o = json!({"op": "eq_reshape", "nr": a, "nc": b}); }
+                    // offsets far outside the matrix (the band is empty); the ends of the isize range are not generated: the property
+                    // quantifies over shapes, and the unchanged crate itself overflows in `row + offset` at isize::MAX
+                    _ => { let off = [-1000i64, 1000, -64, 64, -536870912, 536870911][rng.gen_range(0..6)] / if rng.gen_bool(0.5) { 1 } else { 4 }; o = json!({"op": "fill_band", "off": off, "x": small(rng)}); if cx { o["xi"] = json!(small(rng)); } }
+                }
+            }
             41 => { o = json!({"op": "new", "nr": rng.gen_range(0..=8), "nc": rng.gen_range(0..=8), "x": small(rng)}); if cx { o["xi"] = json!(small(rng)); } }
             42 => { if !f64ty { continue; } o = json!({"op": "norm_1"}); }
             43 => { if !f64ty { continue; } o = json!({"op": "norm_inf"}); }
